@@ -64,6 +64,10 @@ def environ_variant(rq: Dict[str, Any], flags: Sequence[str]) -> Dict[str, Any]:
                     "uwsgi.node": b"verif",
                 }
             )
+            # ... and the optional file wrapper of PEP 3333 that these servers offer
+            from wsgiref.util import FileWrapper
+
+            env["wsgi.file_wrapper"] = FileWrapper
         else:
             raise HarnessError(f"environ flag {f!r}")
     return env
